@@ -14,6 +14,7 @@ let lit_of_tok (t : string) : (nat * bool) =
   let i = int_of_string t in
   if i > 0 then (nat_of_int (i - 1), true) else (nat_of_int (- i - 1), false)
 
+let hash_classes : (string * int) list ref = ref []
 let state_string (s : solver) : string =
   let nv = int_of_nat s.s_nvars in
   let m = (top_state s).ss_model in
@@ -27,8 +28,14 @@ let state_string (s : solver) : string =
   let diff = List.map (fun (v, b) -> let i = int_of_nat v + 1 in if b then i else - i)
       (sat_difference_iter s) in
   let diff = List.sort (fun a b -> compare (abs a, a) (abs b, b)) diff in
-  Printf.sprintf "[%s;%s;%d;%s]" ms (String.concat "," (List.map string_of_int diff))
-    (if sat_is_sat s then 1 else 0) (string_of_n (sat_cur_hash s))
+  (* the hash as an equivalence class within the case (#k = k-th distinct value seen), as the
+     harness prints it: the property fixes when hashes are equal, not their values *)
+  let h = string_of_n (sat_cur_hash s) in
+  let k = (match List.assoc_opt h !hash_classes with
+    | Some k -> k
+    | None -> let k = List.length !hash_classes in hash_classes := (h, k) :: !hash_classes; k) in
+  Printf.sprintf "[%s;%s;%d;#%d]" ms (String.concat "," (List.map string_of_int diff))
+    (if sat_is_sat s then 1 else 0) k
 
 let diff_string (d : (nat * bool) list) : string =
   let diff = List.map (fun (v, b) -> let i = int_of_nat v + 1 in if b then i else - i) d in
@@ -82,6 +89,7 @@ let () =
   List.iter (fun line ->
     match split_ws line with
     | id :: rest ->
+      hash_classes := [];
       let light, rest = (match rest with "u" :: r -> (true, r) | r -> (false, r)) in
       (* clauses *)
       let rec clauses acc cur = function
